@@ -93,7 +93,7 @@ fn start_watchdog(shard: usize, budget: Duration) {
 fn harmless_filter() -> c14::Cfg {
     // deny frames to the discard port only: nearly everything passes, but every frame goes through
     // the pre-parse filter decoder
-    c14::Cfg { deny: true, port: Some(c14::PortF { dst_ports: vec![9], ..Default::default() }), addr: None, net: None }
+    c14::Cfg { deny: true, port: Some(c14::PortF { dst_ports: vec![9], ..Default::default() }), addr: None, net: None, style: 0 }
 }
 
 pub struct Bank {
